@@ -9,6 +9,21 @@ NOTE_COMMON = ("Trusted: Lean 4.33 kernel; axioms propext/Classical.choice/Quot.
                "differential execution (sampling, not proof); harness, generators and the cfg(sentinel_verif) hooks; std, lru, serde are not modelled.")
 
 CLAIMS = {
+ "C02": dict(
+    category="proof",
+    text=("Ring refinement proved for every geometry (0<n, 0<L), every history of events with non-decreasing timestamps of any length "
+          "(idle gaps, exact bucket/interval multiples) and every read time >= last write: RingInv is established by new and preserved by "
+          "every write (ring_inv_write, run_inv); sliding_sum_eq / sliding_min_rt_eq: the window sum / min-rt read through any reader "
+          "accepted by the reuse check equals the value computed directly from the recorded events whose bucket lies in the window; "
+          "qps/avg_rt are the code's float expressions of those sums; qps_previous under the residency condition; leap_new_ok_iff, "
+          "checkReuse_iff, checkReuse_tiles: unservable geometries are refused, accepted ones satisfy the read theorem's hypotheses; "
+          "history_sum_eq composes them end to end. Model (Sentinel/LeapArray.lean) tied to leap_array.rs / bucket_leap_array.rs / "
+          "sliding_window_metric.rs / metric_bucket.rs by differential execution; the event-list Spec is also evaluated on the implementation's answers."),
+    design_ref="DESIGN.md §5.2, §6 C02",
+    technique="Lean 4 refinement proof (ring invariant, induction over histories) + differential correspondence + Spec oracle on implementation traces",
+    note=NOTE_COMMON + " Guards: timestamps >= one interval (no u64 wrap in end-interval+bucket_len; stamp 0 = never used); bucket length >= 1. "
+         "f64 results are compared bit-exactly through an integer soft-float (F64.roundDiv) that is validated against Rust on every run, not proved equal to IEEE-754. "
+         "max_of_single_bucket / max_concurrency / count_with_time are covered by correspondence only (no Spec theorem)."),
  "C13": dict(
     category="proof",
     text=("Theorems over every chain (any number of slots, arbitrary/equal order values, any pass/blocked/wait assignment): sorted-permutation "
